@@ -894,6 +894,7 @@ type semOutcome struct {
 	Got          map[int][]uint64
 	Asm          string
 	Log          string
+	Misfit       string   // assembly-not-runnable "operand does not fit": which operand kind
 	Missing      []string // opcodes used by the emitted assembly but absent from the requested machine
 	Machine      string   // machine-mismatch: opcode whose hardware diverges from the ISA model
 	ISADisagrees bool
@@ -1146,6 +1147,9 @@ func part2(run *vlib.Run, bt *built) bool {
 			progs = append(progs, &semProg{Rsize: rs, Size: 2, Alpha: "rejected-operators", Source: sourceOf(body, rs), Expect: "rejected"})
 		}
 	}
+	stp, std := storagePrograms(run.Thorough())
+	progs = append(progs, stp...)
+	planDescr = append(planDescr, std...)
 	shp, shd := shadowPrograms(run.Thorough())
 	progs = append(progs, shp...)
 	planDescr = append(planDescr, shd...)
@@ -1295,6 +1299,7 @@ func part2(run *vlib.Run, bt *built) bool {
 	run.Set("part2_compared_ok", counts["ok"])
 	run.Set("part2_distinct_output_traces", len(distinct))
 	run.Set("part2_enumeration", planDescr)
+	run.Set("part2_storage_reuse_family", "1..2 outer memory variables; sibling constructs declaring k memory locals each (every local assigned a distinct constant and written to the output inside its block), outer variables written after them; two siblings, all (k1,k2) in 0..3: bare/bare, if reg_t == 1 {k1} else {k2}, bare block then k2 top level declarations (thorough: also if reg_t == 0, uint16); thorough: three siblings, all (k1,k2,k3) in 0..3: bare/bare/bare, if-else + bare, bare + if-else, bare/bare + declarations, uint8 and uint16")
 	run.Set("part2_shadowing_family", "block scoping: outer variable V (a = memory, reg_b = register), block kinds {bare, if body, else body, for body} x {redeclares V, does not} x PRE {V = 5 (thorough: also none)} x INNER = all sequences of 1..2 statements of {V = 1, V = V + 2, V++, IOWrite(o0, V)} x POST {IOWrite; V++ IOWrite (thorough: also V = V + 2 IOWrite; IOWrite V = 1 IOWrite)} (quick: the non-redeclaring control only for the bare block); two levels: block {[var V] s1 {[var V] s2 IOWrite} IOWrite} IOWrite with s1 in {V = 1, V++}, s2 in {V = 3, V = V + 2, V++}, all four redeclaration combinations (quick: outer block bare; thorough: all four kinds); 16 bit: bare and for body, redeclared, one inner statement")
 	run.Set("part2_bounds", "all canonical programs (last statement writes an output; no assignment that is immediately overwritten) with exactly `size` statements (nested ones counted) over the named statement alphabet: variables a (memory) and reg_b (register) of type uintN, assignments of constants / the other variable / + / * / bondgo.IORead / a function call, ++/--, bondgo.IOWrite to one or two outputs, if / if-else with == conditions, two bounded for loops; plus one program per binary operator the compiler refuses (- & | ^ / <<)")
 	run.Set("part2_wall_s", time.Since(t0).Seconds())
@@ -1393,6 +1398,7 @@ func judge(xw *execWorker, p *semProg, status, panicMsg, detail string, choices 
 	if h.Status == "empty-program" {
 		// the compiler's own assembler refused the emitted assembly for the requested machine
 		oc.Class, oc.Detail = "assembly-not-runnable", assemblerMessage(oc.Log)
+		oc.Misfit = misfitKind(mj, oc.Asm, oc.Detail)
 		return oc
 	}
 	// layer attribution
@@ -1536,6 +1542,8 @@ func reportSemFailures(run *vlib.Run, failing []*semOutcome) {
 			mc := msgClass(strings.Split(oc.Detail, ",")[0])
 			if strings.HasPrefix(mc, "unknown-opcode") {
 				mc = "opcode-emitted-but-not-requested|" + strings.Join(oc.Missing, "+")
+			} else if strings.HasPrefix(mc, "operand-does-not-fit") {
+				mc += "|" + oc.Misfit // which operand: a jump target and a RAM address are different root causes
 			}
 			add("C12|codegen|assembly-not-runnable-on-requested-machine|"+mc, "the assembler of the machine bondgo requests refuses the assembly bondgo emits (the saved machine has an empty program)", oc)
 			continue
